@@ -49,6 +49,11 @@ CHECKS['C01'] = ('3/C01', 'One explicit step of the real coolant update methods 
                  'identity (small bundles) and in a decomposed form that scales (affinity per cell + every unit-field column), for '
                  'interior, bypass and low-fidelity regions; tallies equal their definitions; mixed mean carried across region changes.')
 
+CHECKS['C04'] = ('3/C04', 'Linear probing by the solver: unit fields through the real explicit update methods give the operator weights as '
+                 'rational functions of a symbolic state; dz is bounded by the value the real criterion returns (each limiting cell type is a '
+                 'path); weights >= 0 (self weights by solver-checked proof scripts with term abstraction) and weights summing to one are SMT '
+                 'queries; interior, bypass (flowing and stagnant) and both low-fidelity models.')
+
 NOT_APPLICABLE = {
     'C16': ('No symbolic dimension for a solver: process schedules/multiprocessing/file output, bitwise IEEE determinism, and '
             'object-identity/type mutation of the input dictionary on `is None`/key-presence branches (DESIGN section 4).'),
